@@ -147,6 +147,52 @@ Proof. exact guards_nonvacuous. Qed.
 Theorem C04_libs_satisfiable : inhabited Libs.
 Proof. exact libs_satisfiable. Qed.
 
+(** *** variadic calls are the left fold of the unary operation
+    (disj s a b ..), (dissoc m k ..), (assoc c k v k' v' ..), (conj! t a b ..), (assoc! ..), (dissoc! ..),
+    (disj! ..) are not new operations of the model: a variadic call is a group of consecutive
+    unary operations of the history, each naming the slot of the one before it (C04/Variadic.v).
+    Running the group after any history IS folding the unary [step] from the state that history
+    leaves; after the first exception nothing more happens; the call returns the first exception
+    of the group, else its last result.  So the refinement theorems above, stated for all
+    histories, cover the groups, and the correspondence's verdict on a history with variadic
+    calls ([CHistV gs ops]: the implementation performs each group as ONE call) is covered by
+    them under the same two guards. *)
+Theorem C04_variadic_is_fold : forall (L : Libs) (pre chain : list op),
+  slots (irun L (pre ++ chain)) = slots (irun L pre) ++ new_slots L (irun L pre) chain /\
+  heap (irun L (pre ++ chain)) = heap (fold_left (istep L) chain (irun L pre)).
+Proof. exact variadic_is_fold. Qed.
+
+Theorem C04_variadic_error_stops : forall (L : Libs) (st : ist L) (o : op) (i : nat) (cls : N),
+  chain_op o = Some i -> nth_error (slots st) i = Some (RErr cls) ->
+  step L st o = (RErr EBadRef, heap st).
+Proof. exact variadic_error_stops. Qed.
+
+Theorem C04_variadic_result : forall (g : list sres) (x : sres) (cls : N) (r : list sres),
+  forallb (fun r => negb (is_err r)) g = true ->
+  vresult (g ++ [x]) = x /\ vresult (g ++ RErr cls :: r) = RErr cls.
+Proof. exact variadic_result. Qed.
+
+Theorem C04_variadic_model_meets_spec_partial : forall (gs : list nat) (ops : list op),
+  list_sum gs = length ops ->
+  indices_nonneg ListLibs ops = true -> meta_args_nonnil ListLibs ops = true ->
+  spec_ok (CHistV gs ops) (model (CHistV gs ops)) = true.
+Proof. exact variadic_model_meets_spec. Qed.
+
+Theorem C04_variadic_conservative : forall ops : list op,
+  model (CHistV (map (fun _ => 1) (model_obs ops)) ops) = model (CHist ops).
+Proof. exact variadic_conservative. Qed.
+
+Example C04_variadic_values :
+  model (CHistV [1; 2; 1; 2; 1; 2; 1; 1; 2; 1]
+    [ONew KSet [k_ 1]; ODisj 0 (k_ 2); ODisj 1 (k_ 1);
+     ONewMap [(k_ 1, i_ 1)]; ODissoc 3 (k_ 2); ODissoc 4 (k_ 1);
+     ONew KVec []; OAssoc 6 (i_ 0) (k_ 1); OAssoc 7 (i_ 1) (k_ 2);
+     ONew KVec [i_ 7]; OTransient 9; OAssocT 10 (i_ 0) (k_ 1); OAssocT 11 (i_ 5) (k_ 2); OGet 10 (i_ 0) None]) =
+  OOut [RColl (CSet [k_ 1]) None; RColl (CSet []) None; RColl (CMap [(k_ 1, i_ 1)]) None; RColl (CMap []) None;
+        RColl (CVec []) None; RColl (CVec [k_ 1; k_ 2]) None; RColl (CVec [i_ 7]) None; RTrans 0;
+        RErr EIndex; RVal (k_ 1)] true [CVec [k_ 1]].
+Proof. exact variadic_values. Qed.
+
 Print Assumptions C04_table_vector_shape.
 Print Assumptions C04_table_nth_shape.
 Print Assumptions C04_table_with_meta_shape.
@@ -171,3 +217,9 @@ Print Assumptions C04_spec_sets_modulo_permutation.
 Print Assumptions C04_key_equality_is_an_equivalence.
 Print Assumptions C04_guards_nonvacuous.
 Print Assumptions C04_libs_satisfiable.
+Print Assumptions C04_variadic_is_fold.
+Print Assumptions C04_variadic_error_stops.
+Print Assumptions C04_variadic_result.
+Print Assumptions C04_variadic_model_meets_spec_partial.
+Print Assumptions C04_variadic_conservative.
+Print Assumptions C04_variadic_values.
